@@ -379,6 +379,10 @@ def run(cfg, sync_pool=True, record_admm=True, admm_wrapper=None, series=None, e
                   iteration_limit=cfg["limit"], min_meaningful_covariance=cfg.get("eps", 0),
                   num_processors=cfg.get("num_processors", 1), min_cluster_size=cfg["m"],
                   biased_covariance=cfg.get("biased", False))
+    if cfg.get("flag_form") == "np.bool_":
+        kwargs["biased_covariance"] = np.bool_(kwargs["biased_covariance"])
+    elif cfg.get("flag_form") == "int":
+        kwargs["biased_covariance"] = int(bool(kwargs["biased_covariance"]))
     if extra_kwargs:
         kwargs.update(extra_kwargs)
     trace.kwargs = kwargs
